@@ -791,12 +791,15 @@ pub fn exec(slot: &dyn Slot, op: &Op) -> Outcome {
     // the numeric-type seam: element operations of this call may yield (no-op unless the slot's
     // element type is `Yf` and the thread runs under the baton)
     crate::yelem::arm(op.yield_mask);
+    let noctx0 = stub::NOCTX_CALLBACKS.load(std::sync::atomic::Ordering::Relaxed);
     let mut out = slot.call(&op.call);
+    let foreign = stub::NOCTX_CALLBACKS.load(std::sync::atomic::Ordering::Relaxed) != noctx0;
     let elem_yields = crate::yelem::disarm();
     if let Some(ctx) = OPCTX.with(|c| c.borrow_mut().take()) {
         out.stub = ctx.log;
     }
     out.stub.elem_yields = elem_yields;
+    out.stub.foreign_callbacks = foreign;
     out
 }
 
